@@ -120,7 +120,10 @@ def evalLayout (cfg : Cfg) (es : InEdges) (obs : Json) : E Verdict := do
   -- correspondence of the models with the traced run
   if let some cs := fieldOpt obs "comps" then
     let comps ← (← jArr cs).mapM parseComp
-    for (k, ok, why) in tfunLayout cfg es comps o do
+    let logged ← match fieldOpt obs "events" with
+      | some evs => do pure (some (← loggedCrossings (← jArr evs)))
+      | none => pure none
+    for (k, ok, why) in tfunLayout cfg es comps o logged do
       v := v.add k ok why
   -- C16
   if (cfg.p4 == 1 || cfg.p4 == 2) && cfg.virt && (comps o).length == 1 then
